@@ -1,0 +1,10 @@
+//go:build verif
+
+// Machine-checked contracts for package roi (comment-only; read by /verif/cmd/govc).
+
+package roi
+
+//@ func Data.IsMutationRequest
+//@   prop C02
+//@   requires d != nil && d.Data != nil
+//@   ensures result == ((tolower(action) == "post" || tolower(action) == "put" || tolower(action) == "delete") && !(endpoint == "ptquery" && tolower(action) == "post"))
